@@ -764,11 +764,15 @@ func iteReader(c bool, a, b io.Reader) io.Reader {
 //@   props C04 C07 C16 C18
 //@   call Reader.fragmented inline
 //@   invoke io.Reader.Read assigns (&r.raw).N, (&r.utf8).state, (&r.utf8).codep, (&r.utf8).accepted, r.cr.pos, bytes(p), stream(r.Source)
-//@   requires [inv]   invReader(r) && streamOK(r.Source) && len(r.Extensions) == 0 && r.OnContinuation == nil && r.OnIntermediate == nil && notPartOf(p, r) && (r.frame == nil ==> r.raw.N == 0)
+//@   invoke io.Reader.Read ensures [rejstate] inErr(r.Source) != ErrInvalidUTF8 && c_err == ErrInvalidUTF8 ==> r.utf8.state == 12
+//@   invoke io.Reader.Read ensures [okstate]  c_err != ErrInvalidUTF8 ==> r.utf8.state != 12
+//@   invoke io.Reader.Read ensures [chaininv] validUTF8State(r.utf8.state) && r.raw.N >= 0 && streamOK(r.Source)
+//@   requires [inv]   invReader(r) && streamOK(r.Source) && len(r.Extensions) == 0 && r.OnContinuation == nil && r.OnIntermediate == nil && notPartOf(p, r) && (r.frame == nil ==> r.raw.N == 0) && r.utf8.state != 12
 //@   ensures  [noadvance] old(r.frame) == nil && old(r.State)&ws.StateFragmented == 0 ==> n == 0 && err == ErrNoFrameAdvance
 //@   ensures  [n]     err != ErrInvalidUTF8 ==> 0 <= n && n <= len(p)
 //@   ensures  [eof]   err == io.EOF ==> idleReader(r) && r.State&ws.StateFragmented == 0
 //@   ensures  [short] err == nil && r.frame != nil ==> r.raw.N != 0
 //@   ensures  [more]  err == nil && r.frame == nil ==> r.State&ws.StateFragmented != 0 && r.raw.N == 0
-//@   ensures  [invalid] err == ErrInvalidUTF8 && inErr(r.Source) != ErrInvalidUTF8 ==> idleReader(r)
+//@   ensures  [invalid] old(r.frame) != nil && err == ErrInvalidUTF8 && inErr(r.Source) != ErrInvalidUTF8 ==> idleReader(r) || r.utf8.state == 12
+//@   ensures  [inv]   invReader(r) && streamOK(r.Source)
 //@   ensures  [same]  r.Source == old(r.Source) && r.CheckUTF8 == old(r.CheckUTF8)
